@@ -1223,7 +1223,9 @@ class tensor:
         array([[ 0.4045...,  0.9145...],
                [ 0.9145..., -0.4045...]])
         """
-        Xn = self.to_tenmat(rdims=np.array([n])).double()
+        # Matricise a double-precision copy: a logical tensor has no matricisation
+        # (tenmat rejects bool data)
+        Xn = ttb.tensor(self.double(), copy=False).to_tenmat(rdims=np.array([n])).double()
         y = Xn @ Xn.T
 
         if r < y.shape[0] - 1:
